@@ -140,6 +140,10 @@ class SV:
 _counter = [0]
 
 
+def reset_fresh():
+    _counter[0] = 0
+
+
 def fresh_name(base):
     _counter[0] += 1
     return f"{base}!{_counter[0]}"
@@ -274,7 +278,7 @@ def seq_len(sv):
     return z3.Length(sv.z)
 
 
-NONNEG = set()  # ids of z3 terms known non-negative on the current path (reset per path)
+NONNEG = {}  # ids of z3 terms known non-negative on the current path (reset per path)
 
 
 def note_nonneg(z):
@@ -287,13 +291,13 @@ def note_nonneg(z):
         a, b = z.arg(0), z.arg(1)
         k = z.decl().kind()
         if k == z3.Z3_OP_GE and z3.is_int_value(b) and b.as_long() >= 0:
-            NONNEG.add(a.get_id())
+            NONNEG[a.get_id()] = a
         elif k == z3.Z3_OP_GT and z3.is_int_value(b) and b.as_long() >= -1:
-            NONNEG.add(a.get_id())
+            NONNEG[a.get_id()] = a
         elif k == z3.Z3_OP_LE and z3.is_int_value(a) and a.as_long() >= 0:
-            NONNEG.add(b.get_id())
+            NONNEG[b.get_id()] = b
         elif k == z3.Z3_OP_LT and z3.is_int_value(a) and a.as_long() >= -1:
-            NONNEG.add(b.get_id())
+            NONNEG[b.get_id()] = b
 
 
 def is_nonneg(z):
